@@ -257,8 +257,9 @@ func VerifC09Ptr(name string, isNil bool, ver string) int {
 	return 0
 }
 
-// VerifC09Embedded: unknown fields pass through unchanged and in order; known fields reflect the struct.
-func VerifC09Embedded(xa, known, xb, other, newKnown string) int {
+// VerifC09Embedded: unknown fields pass through unchanged and in order; known fields (plain and renamed)
+// reflect the struct's current values, also when they were emptied.
+func VerifC09Embedded(xa, known, xb, other, newKnown, newOther string) int {
 	doc := "X-a: " + xa + "\nKnown: " + known + "\nX-b: " + xb + "\nX-Other: " + other + "\n"
 	var v verifEmbedded
 	if err := Unmarshal(&v, strings.NewReader(doc)); err != nil {
@@ -271,6 +272,7 @@ func VerifC09Embedded(xa, known, xb, other, newKnown string) int {
 		return 3
 	}
 	v.Known = newKnown
+	v.Other = newOther
 	var buf bytes.Buffer
 	if err := Marshal(&buf, &v); err != nil {
 		return 4
@@ -279,18 +281,25 @@ func VerifC09Embedded(xa, known, xb, other, newKnown string) int {
 	if !ok {
 		return 5
 	}
-	want := []string{"X-a", "Known", "X-b", "X-Other"}
-	if newKnown == "" {
-		want = []string{"X-a", "X-b", "X-Other"}
+	want := []string{"X-a"}
+	if newKnown != "" {
+		want = append(want, "Known")
+	}
+	want = append(want, "X-b")
+	if newOther != "" {
+		want = append(want, "X-Other")
 	}
 	if !eqStrings(keys, want) {
 		return 6
 	}
-	if vals["X-a"] != xa || vals["X-b"] != xb || vals["X-Other"] != other {
+	if vals["X-a"] != xa || vals["X-b"] != xb {
 		return 7
 	}
 	if newKnown != "" && vals["Known"] != newKnown {
 		return 8
+	}
+	if newOther != "" && vals["X-Other"] != newOther {
+		return 9
 	}
 	return 0
 }
